@@ -235,7 +235,15 @@ def run(rep):
         rep.check('R08.a', fkey(f, 'source_route'), ok, 'an error without a source route is attributed to the route that produced it before being rendered' if ok else
                   'ret.source_route may be unset when execute_error is called', app, sr_store[0] if sr_store else ee)
         # dispatch returns the result on every path: the result variable, or directly what the renderer / its fallback gave
-        rets = [r for r in returns_of(f) if not (isinstance(r.value, ast.Call) and call_name(r.value) == 'redirect')]
+        def _is_redirect(r):
+            """the statement returns a slash redirect: the call itself, or a local that can only hold one at this point"""
+            if isinstance(r.value, ast.Call) and call_name(r.value) == 'redirect':
+                return True
+            if isinstance(r.value, ast.Name) and r.value.id != dv.ret_var:
+                va = dv.value_at(r.value.id, r)
+                return bool(va) and all(isinstance(dv.resolve(v_), ast.Call) and call_name(dv.resolve(v_)) == 'redirect' for st_, v_ in va)
+            return False
+        rets = [r for r in returns_of(f) if not _is_redirect(r)]
         ok = bool(rets) and all(r.value is not None and (norm(r.value) == dv.ret_var or r is ee or r in fb) for r in rets) and \
             cfg.must_pass(cfg.nodes_of_all(returns_of(f)), cfg.entry, cfg.exit, normal_only=True)
         rep.check('R08.a', fkey(f, 'returns result'), ok, 'dispatch returns the (rendered) result' if ok else 'dispatch does not return the result variable', app, f.node)
